@@ -53,7 +53,7 @@ pub struct Device {
 
 use DisabledOptions::*;
 
-use crate::instruction::operation::Operation;
+use crate::instruction::{operation::Operation, register::Reg16, IndexOps, InstructionOps};
 
 impl Device {
     pub fn new(flash_size: u32) -> Self {
@@ -103,6 +103,35 @@ impl Device {
                 } else {
                     false
                 }
+            }
+            _ => true,
+        }
+    }
+
+    /// Checks addressing form of operation: some devices have instruction only in part of its forms
+    pub fn check_operands(&self, op: &Operation, op_args: &Vec<InstructionOps>) -> bool {
+        match op {
+            Operation::Lpm => op_args.is_empty() || self.allow(NoLpmX),
+            Operation::Elpm => op_args.is_empty() || self.allow(NoElpmX),
+            Operation::Ld | Operation::St | Operation::Ldd | Operation::Std => {
+                for op_arg in op_args {
+                    if let InstructionOps::Index(index) = op_arg {
+                        let allowed = match index {
+                            IndexOps::None(reg16)
+                            | IndexOps::PostIncrement(reg16)
+                            | IndexOps::PostIncrementE(reg16, _)
+                            | IndexOps::PreDecrement(reg16) => match reg16 {
+                                Reg16::X => self.allow(NoXreg),
+                                Reg16::Y => self.allow(NoYreg),
+                                Reg16::Z => true,
+                            },
+                        };
+                        if !allowed {
+                            return false;
+                        }
+                    }
+                }
+                true
             }
             _ => true,
         }
